@@ -181,6 +181,21 @@ func init() {
 		e.vc.Assume(True, App("str_ok", SBool, r))
 		return r, true
 	}
+	goModels["(github.com/jcmturner/rpc/v2/mstypes.FileTime).Time"] = func(e *Exec, c *ssa.CallCommon, a []Val, in ssa.Instruction) (Val, bool) {
+		e.trust("mstypes.FileTime.Time is a deterministic function of the two 32-bit words (spec function filetime)")
+		st, ok := a[0].(*Term)
+		t := e.P.lookupType("github.com/jcmturner/rpc/v2/mstypes.FileTime")
+		if !ok || t == nil {
+			return nil, false
+		}
+		si := structInfo(t)
+		if len(si.Fields) != 2 {
+			return nil, false
+		}
+		r := e.vc.Define("ft", App("filetime", STime, Resize(FieldSel(si, st, 0), 64, false), Resize(FieldSel(si, st, 1), 64, false)))
+		e.vc.Assume(True, App("time_ok", SBool, r))
+		return r, true
+	}
 	goModels["(hash.Hash).Size"] = func(e *Exec, c *ssa.CallCommon, a []Val, in ssa.Instruction) (Val, bool) {
 		return App("hsize", BV(64), IfRef(a[0].(*Term))), true
 	}
